@@ -51,6 +51,24 @@ func deepEq(x, y value) bool {
 			}
 		}
 		return true
+	case *omap:
+		y, ok := y.(*omap)
+		if !ok {
+			return false
+		}
+		if x == nil || y == nil {
+			return (x == nil || len(x.keys) == 0) && (y == nil || len(y.keys) == 0) && (x == nil) == (y == nil)
+		}
+		if len(x.keys) != len(y.keys) {
+			return false
+		}
+		for i, k := range x.keys {
+			w, ok := y.lookup(k)
+			if !ok || !deepEq(x.vals[i], w) {
+				return false
+			}
+		}
+		return true
 	case map[value]value:
 		y, ok := y.(map[value]value)
 		if !ok || len(x) != len(y) {
